@@ -61,6 +61,8 @@ func instancesFor(prop, tier string) []*Instance {
 		c09Instances(add, thorough)
 	case "C02":
 		c02Instances(add, thorough, 0)
+	case "C14":
+		c14Instances(add, thorough)
 	case "C03":
 		c03Instances(add, thorough)
 	case "C15":
@@ -374,4 +376,59 @@ func c09Instances(add func(*Instance), thorough bool) {
 	}
 	c01Instances(wrap, thorough, 1)
 	c02Instances(wrap, thorough, 1)
+}
+
+func c14Instances(add func(*Instance), thorough bool) {
+	const sv = "cvc5,cvc5-int,z3-new" // linear arithmetic over symbolic cardinalities: the integer encoding decides what bit-blasting stalls on
+	pow := func(n int) int {
+		p := 1
+		for i := 0; i < n; i++ {
+			p *= 3
+		}
+		return p
+	}
+	maxN := 8
+	if thorough {
+		maxN = 16
+	}
+	for n := 0; n <= maxN; n++ {
+		// kind patterns: all arrays, all bitmaps, all runs, alternating, one run first / last
+		pats := map[int]bool{0: true, (pow(n) - 1) / 2: true, pow(n) - 1: true}
+		alt, k := 0, 1
+		for i := 0; i < n; i++ {
+			alt += (i % 3) * k
+			k *= 3
+		}
+		pats[alt] = true
+		if n > 0 {
+			pats[2] = true
+			pats[2*pow(n-1)] = true
+			pats[1] = true
+		}
+		for p := range pats {
+			tier := 0
+			if n > 8 {
+				tier = 1
+			}
+			add(&Instance{Func: "VerifC14Bound", Params: P("n", n, "kinds", p), Solvers: sv, Tier: tier})
+		}
+	}
+	// short histories on real bitmaps satisfying I
+	shapes := []map[string]int{
+		P("ak", 2, "akeys", 0, "acow", 0, "ac0", 2, "ac1", 201),
+		P("ak", 1, "akeys", 4, "acow", 0, "ac0", 202),
+		P("ak", 3, "akeys", 4, "acow", 0, "ac0", 1, "ac1", 220, "ac2", 1),
+	}
+	for _, sh := range shapes {
+		for m := 0; m <= 5; m++ {
+			for opt := 0; opt <= 1; opt++ {
+				ln := 7
+				if m == 5 {
+					ln = 2
+				}
+				pp := with(sh, "m", m, "opt", opt, "eff", 1, "L", 7, "xb", 0, "xm", -1, "sb", 0, "sm", 262143, "len", ln)
+				add(&Instance{Func: "VerifC14Step", Params: pp, Solvers: sv})
+			}
+		}
+	}
 }
